@@ -1,8 +1,8 @@
 #!/bin/bash
-# verify_seed4.sh <Cxx> <A|B> [features]  — round-4 seeds: /tmp/seed4/<Cxx>/SEED_<X>/ -> seeded/<Cxx>-r4<x>/
+# verify_seed4.sh <Cxx> <A|B> [features]  — round-4 seeds: /tmp/seed${ROUND:-4}/<Cxx>/SEED_<X>/ -> seeded/<Cxx>-r4<x>/
 set -u
 p=$1; x=$2; feat=${3:-}
-wt=/tmp/seed4/$p
+wt=/tmp/seed${ROUND:-4}/$p
 lx=$(echo $x | tr 'AB' 'ab')
 [ -d $wt/SEED_$x ] || { echo "no $wt/SEED_$x"; exit 3; }
 rm -rf $wt/SEED; cp -r $wt/SEED_$x $wt/SEED
@@ -12,6 +12,6 @@ if [ -z "$feat" ]; then
   grep -qiE "overlapped-lists" $wt/SEED/seed_demo.rs && feat="${feat:+$feat,}overlapped-lists"
   grep -qiE "features.*encoding|--features encoding" $wt/SEED/seed_demo.rs && feat="${feat:+$feat,}encoding"
 fi
-echo "### $p-r4$lx (features for demo: ${feat:-none})"
-/verif/tools/verify_seed.sh $wt $p-r4$lx "$feat"
+echo "### $p-r${ROUND:-4}$lx (features for demo: ${feat:-none})"
+/verif/tools/verify_seed.sh $wt $p-r${ROUND:-4}$lx "$feat"
 ( cd $wt && git checkout -q -- . ; rm -f tests/seed_demo.rs; rm -rf SEED )
